@@ -49,8 +49,12 @@ def _situation(src, n, procs, lean):
     core.finalize_rules()
     adapter.plant_fsm_state(core, F.OPERATION)
     core.state_modes.master_identifier = core.local_identifier
+    # the first process may have been run with extra arguments before (they are kept for the next start)
+    past = src.pick('past_of_the_first_process', ['nothing', 'run-with-extra-arguments', 'start-given-up'])
+    if past == 'run-with-extra-arguments':
+        plist[0][0].extra_args = '-x 1'
     # the first process may carry the state forced by an earlier start that was given up (nothing received since)
-    if src.pick_flag('earlier_start_given_up'):
+    if past == 'start-given-up':
         from supervisor.states import ProcessStates as PS
         from rig.stubs import CLOCK
         proc0 = plist[0][0]
